@@ -71,6 +71,9 @@ func vfCheckKindCoverage(t *testing.T, vf *vfCollector) {
 	vf.Note("filter kinds not instantiated: WasmHost (not registered without the wasmhost build tag); Kafka/KafkaMQTT only with an empty or unreachable broker list (no broker in the sandbox)")
 }
 
+// vfSteerVF is the collector whose known-finding list drives the steering (set by each test).
+var vfSteerVF *vfCollector
+
 // vfGenFilterTree generates the YAML tree of one filter of the given kind.
 func vfGenFilterTree(g *vfG, kindName, name string) map[string]interface{} {
 	kind := filters.GetKind(kindName)
@@ -78,6 +81,9 @@ func vfGenFilterTree(g *vfG, kindName, name string) map[string]interface{} {
 	tree := map[string]interface{}{}
 	g.Struct(specT, "", tree)
 	vfKindFixup(g, kindName, specT, tree)
+	if vfSteerVF != nil {
+		vfSteerFilter(vfSteerVF, g, kindName, tree)
+	}
 	tree["name"] = name
 	tree["kind"] = kindName
 	return tree
@@ -187,6 +193,7 @@ func TestVerifC13Filters(t *testing.T) {
 	defer vf.End()
 	env := vfGetEnv(t)
 	vfCheckKindCoverage(t, vf)
+	vfSteerVF = vf
 	all := append(append([]string{}, vfHTTPKinds...), vfMQTTKinds...)
 	defer vfDumpDiscovered(t)
 	defer vfDumpTiming()
@@ -271,6 +278,10 @@ func TestVerifC13Filters(t *testing.T) {
 				ctx, desc, class = r.Context(), r.String(), r.Class()
 			} else {
 				r := vfGenHTTPReq(rt, true)
+				if kindName == "Fallback" && r.Resp == "none" && vf.HasKnown(vfKeyFallback) && vfChance(rt, "steer-fallback", 85) {
+					vf.Exclude()
+					r.Resp = "buffered"
+				}
 				c, ok := r.Context(env)
 				if !ok {
 					vf.Class("request-rejected-by-server")
